@@ -96,7 +96,9 @@ class C14(Check):
             for lim in ((1, 2) if tier == 'quick' or K in (4, 5) else (1,) if K == 6 else (1, 2, 3)):
                 cfgs.append(Config('schedule_K%d_lim%d' % (K, lim), self.schedule, {'K': K, 'lim': lim}, split=3,
                                    witness_every=211))
-        cfgs.append(Config('pool_size', self.pool_size, {'K': 2}, split=2, witness_every=5))
+        for K in ((2, 5) if tier == 'quick' else (2, 3, 4, 5, 6)):
+            # K well above the smallest pool sizes: 1 < num_processors < K is where dispatch order can matter
+            cfgs.append(Config('pool_size_K%d' % K, self.pool_size, {'K': K}, split=2, witness_every=5 if K == 2 else 0))
         cfgs.append(Config('repopulating_runs', self.repopulating_runs, {}, split=3))
         cfgs.append(Config('cache_order', self.cache_order, {}, nonlinear=True, witness_every=2))
         cfgs.append(Config('hyperparameter_history', self.hyper_history, {}, split=3, witness_every=3))
